@@ -7,6 +7,8 @@ import tlc
 import ol
 
 ASSUME = [
+    "noise 'fetchfail': HS_DESC FAILED events for this service's own address that report a failed descriptor *fetch* (REASON=NOT_FOUND, "
+    "a directory no upload was announced to) arrive while the creation command is outstanding and during the wait; they decide nothing",
     "endpoint configurations: ephemeral v3 / v2 with a supplied key / single-hop / with local_port=, filesystem with explicit and implicit "
     "directory / with local_port=, Tor.create_onion_endpoint and Tor.create_filesystem_onion_endpoint, and 'onion:<port>:controlPort=...' endpoint "
     "strings (through TCPHiddenServiceEndpointParser.parseStreamServer, what serverFromString calls; the endpoint then makes its own "
@@ -28,7 +30,7 @@ def run(pid, tier, seed):
         for fault in ol.SCRIPTS:
             if fault == "invalid" or (cfg.startswith("tor_") and fault == "config"):
                 continue
-            for noise in ("", "up", "fail"):
+            for noise in ("", "up", "fail", "fetchfail"):
                 traces.append(ol.replay(cfg, fault, noise))
     for cfg in ol.INVALID:
         traces.append(ol.replay(cfg, "invalid"))
